@@ -31,32 +31,15 @@ EP = 1
 
 
 def configs(tier):
+    # mps / buf: max_packet_size and buffer_size of the endpoint (2*mps-1 is the class default); gap, pace: host timing;
+    # win: which consumer windows are placed inside transactions; clk60: the 60 MHz (ULPI PHY) flavour of USBDevice
+    def c(mps, buf, depth, win, gap=1, pace=1, **kw): return dict(mps=mps, buf=buf, gap=gap, pace=pace, depth=depth, win=win, **kw)
     if tier == "quick":
-        cs = [dict(mps=2, buf=3, gap=1, pace=1, depth=5, win="few"),
-              dict(mps=2, buf=2, gap=1, pace=1, depth=5, win="few"),
-              dict(mps=2, buf=4, gap=2, pace=1, depth=4, win="few"),
-              dict(mps=3, buf=5, gap=1, pace=1, depth=4, win="few"),
-              dict(mps=3, buf=3, gap=1, pace=2, depth=4, win="min"),
-              dict(mps=2, buf=3, gap=1, pace=1, depth=2, win="sweep"),
-              dict(mps=4, buf=7, gap=1, pace=1, depth=3, win="min")]
-    else:
-        cs = [dict(mps=2, buf=3, gap=1, pace=1, depth=7, win="few"),
-              dict(mps=2, buf=2, gap=1, pace=1, depth=7, win="few"),
-              dict(mps=2, buf=4, gap=2, pace=1, depth=6, win="few"),
-              dict(mps=2, buf=6, gap=1, pace=1, depth=6, win="min"),
-              dict(mps=3, buf=5, gap=1, pace=1, depth=6, win="few"),
-              dict(mps=3, buf=3, gap=1, pace=2, depth=6, win="min"),
-              dict(mps=3, buf=6, gap=3, pace=1, depth=5, win="few"),
-              dict(mps=3, buf=9, gap=1, pace=1, depth=5, win="min"),
-              dict(mps=4, buf=7, gap=1, pace=1, depth=5, win="min"),
-              dict(mps=4, buf=4, gap=1, pace=8, depth=5, win="min"),
-              dict(mps=4, buf=8, gap=1, pace=1, depth=5, win="min"),
-              dict(mps=4, buf=12, gap=2, pace=1, depth=4, win="min"),
-              dict(mps=2, buf=3, gap=1, pace=1, depth=3, win="sweep"),
-              dict(mps=3, buf=5, gap=1, pace=1, depth=3, win="sweep"),
-              dict(mps=2, buf=4, gap=1, pace=2, depth=3, win="sweep"),
-              dict(mps=2, buf=2, gap=1, pace=1, depth=3, win="sweep")]
-    return cs
+        return [c(2, 3, 4, "few"), c(2, 3, 4, "min", gap=12, clk60=1), c(2, 2, 4, "few"), c(2, 4, 4, "min", gap=2), c(2, 6, 4, "min"),
+                c(3, 5, 4, "min"), c(3, 3, 3, "few", pace=2), c(3, 5, 3, "few", gap=12, clk60=1), c(4, 7, 3, "min"), c(2, 3, 3, "sweep")]
+    return [c(2, 3, 6, "min"), c(2, 3, 5, "few"), c(2, 3, 5, "few", gap=12, clk60=1), c(2, 2, 6, "min"), c(2, 2, 5, "few"), c(2, 4, 5, "few", gap=2),
+            c(2, 6, 5, "few"), c(3, 5, 5, "min"), c(3, 3, 5, "min", pace=2), c(3, 6, 5, "min", gap=3), c(3, 9, 5, "min"),
+            c(3, 5, 4, "few", gap=12, clk60=1), c(4, 7, 4, "few"), c(4, 4, 4, "few", pace=8), c(2, 3, 4, "sweep"), c(3, 5, 3, "sweep", gap=12, clk60=1)]
 
 
 class BulkOutSpec(Spec):
@@ -67,7 +50,7 @@ class BulkOutSpec(Spec):
         super().__init__(cfg, tier)
         self.mps, self.cap = cfg["mps"], cfg["buf"]
         self.max_depth = cfg["depth"]
-        self.time_budget = 40 if tier == "quick" else 840
+        self.time_budget = 150 if tier == "quick" else 840
         self.host = StreamHost(self._decode, gap=cfg["gap"], pace=cfg["pace"], extra=dict(connect=1))
         h = self.host
         self.t_tok = h.event_cycles_no_response(3)
@@ -103,6 +86,13 @@ class BulkOutSpec(Spec):
         mk = lambda: USBStreamOutEndpoint(endpoint_number=EP, max_packet_size=self.mps, buffer_size=self.cap)
         design, h = build_device(control=None, endpoints=[mk], probe=False)
         ep = h["endpoints"][0]
+        if self.cfg.get("clk60"):
+            # the configuration USBDevice gives itself behind a ULPI PHY (60 MHz usb domain, inter-packet delays counted
+            # in 60 MHz cycles), kept at full speed through its full_speed_only input; the UTMI wire is driven directly.
+            dev = h["dev"]
+            dev.data_clock, dev.always_fs = 60e6, False
+            design.inputs.update(full_speed_only=dev.full_speed_only)
+            design.defaults.update(full_speed_only=1)
         design.inputs.update(ready=ep.stream.ready)
         design.observes.update(valid=ep.stream.valid, payload=ep.stream.payload, first=ep.stream.first, last=ep.stream.last)
         return design
@@ -113,6 +103,7 @@ class BulkOutSpec(Spec):
 
     def assumptions(self):
         return self.host.assumptions() + [
+            "clk60 configurations: USBDevice as it configures itself behind a ULPI PHY (data_clock 60 MHz, not always_fs) held at full speed by full_speed_only=1, UTMI wire driven directly; the host then leaves 12 cycles between packets (the 2 bit times = 10 cycles inter-packet delay)",
             "device at address 0, full speed (no high-speed negotiation); PING tokens are sent although a full-speed host would not use them",
             "the host sends DATA0/DATA1 with the toggle it expects; a repeated toggle is only sent after at least one packet was ACKed (lost-ACK retransmission)",
             "payloads never exceed max_packet_size; every DATA packet is preceded by its OUT token",
